@@ -1684,3 +1684,46 @@ def run_linnode(prog, ctx=None):
     parts = _parallel(_node_root, len(roots))
     _collect(res, parts)
     return res
+
+
+def run_shiftkeep(prog, ctx=None):
+    """SHIFTKEEP: the decoders write the decoded bytes into the part of the queue they have already consumed; between the
+    message start `_state.data.pos` and the read position `_state.curr` lies the room for the bytes still to be decoded.
+    mpt_queue_shift() may therefore drop only bytes in front of the message start while a block is open: at its call of
+    mpt_queue_crop(&qu->data, 0, n) the relational analysis shows n <= _state.data.pos, or the path has established that
+    the decoder is between frames (`_state._ctx == 0`).  Dropping the consumed code byte of a frame that begins at offset 0
+    leaves the decoder without room for the first data byte: it answers 0 (incomplete) for ever."""
+    res = Result("SHIFTKEEP")
+    f = prog.func("mpt_queue_shift")
+    if f is None:
+        raise Broken("anchor missing: mpt_queue_shift")
+    an = LinAnalysis(prog, invariants={r: queue_inv for r in QUEUE_RECORDS}, contracts=CONTRACTS)
+    an.max_returns = 64
+    seen = []
+
+    def at_crop(an2, st, fr, e, args):
+        n = args[2] if len(args) > 2 else None
+        qv = st.env.get(("v", fr.id, f.params[0]["id"]))
+        pos = ctxv = None
+        if isinstance(qv, ObjPtr):
+            pos = st.env.get(("f", qv.obj, qv.prefix + "_state.data.pos"))
+            ctxv = st.env.get(("f", qv.obj, qv.prefix + "_state._ctx"))
+        ok = False
+        why = "n = %r, data.pos = %r, _ctx = %r" % (n, pos, ctxv)
+        if isinstance(n, Lin) and isinstance(pos, Lin) and st.entails(pos - n):
+            ok = True
+        if isinstance(ctxv, Lin) and st.entails_eq(ctxv, Lin.const(0)):
+            ok = True
+        seen.append((ok, why, " / ".join(st.trail[-8:]), st.joined, e.get("l")))
+        return [(st, an2.fresh_of_type(st, fr.f, e.get("t")))]
+    an.post = {"mpt_queue_crop": at_crop}
+    an.analyse_root(f)
+    if not seen:
+        raise Broken("SHIFTKEEP: mpt_queue_shift no longer reaches mpt_queue_crop")
+    for k, (ok, why, trail, joined, line) in enumerate(seen):
+        if not ok and joined:
+            res.notes.append("SHIFTKEEP path %d: behind a join, not decided (%s)" % (k, why))
+            continue
+        res.ob("mpt_queue_shift:crop on path %d keeps the decoder's room" % k, ok, f, line or f.line,
+               "" if ok else "mpt_queue_crop() removes n bytes with %s on the path %s: more than lies in front of the message start while the decoder may be inside a block - the consumed bytes that were the room for the next decoded byte are dropped" % (why, trail))
+    return res
